@@ -36,6 +36,9 @@ claimed={
  'C06':dict(level='exploration',engine='E3-store',technique='runtime monitoring: recursive-listing equality (type, exec bit, size, sha256, link target) before caching vs after restore, in-process handlers and real binary',
    text='The real file and directory output handlers (over a real CAS on the fs backend) cache random trees and file outputs and restore them over every listed destination pre-state; the real binary is driven through build / perturb output paths / rebuild (cache hits) and grog run of restored bin outputs. Any difference in the recursive listing, or anything extra left behind, refutes the property.',
    note='Pre-states outside the statement (directory where a file should be, symlink at the path) are leads only. Docker outputs are not covered (no daemon offline).', ref='4/C06'),
+ 'C07':dict(level='fault_enumeration',engine='E3-store',technique='runtime monitoring: crash-point enumeration (SIGKILL at hook points) and backend fault injection with an independent at-rest cache auditor; porcupine linearizability check of recorded fs-backend histories',
+   text='Every sampled (thorough: every) hook point hit of a build is a crash point: the real process is SIGKILLed there, the cache directory is audited at rest by an auditor that shares no code with grog (own xxh3/sha256, protowire decoding) and a follow-up build must succeed with reference bytes. In-process, a decorator fails the k-th backend call (whole or mid-stream) while two targets sharing digests are written, followed by the same audit. Concurrent Set/Get/Exists/Delete histories with unique self-describing values are checked with porcupine against a per-key register.',
+   note='Crash points are between hooked operations, not inside one write(2); tmp-* files are ignored (invisible under a final key); remote backends are covered by C08.', ref='4/C07'),
 }
 na_reason='check under construction in this session: not claimed until its monitor is built and silent on the unchanged tree'
 checks=[]
